@@ -212,11 +212,11 @@ pub fn check(c: &mut Case, k: Kind, texs: &[Tex], shuffle: bool, all_prefixes: b
     c.eval(k_eval);
 }
 
-pub const REQUIRED: &[&str] = &["container_Ctpk", "container_Bch", "container_BchNew", "container_Cgfx", "container_Tpl", "zero_textures", "shuffled_placement", "wrong_magic", "prefixes", "prefix_cutting_a_payload", "all_prefixes"];
+pub const REQUIRED: &[&str] = &["container_Ctpk", "container_Bch", "container_BchNew", "container_Cgfx", "container_Tpl", "zero_textures", "shuffled_placement", "wrong_magic", "prefixes", "prefix_cutting_a_payload", "all_prefixes", "large_dimensions"];
 
 pub fn run(cx: &mut Ctx) {
     cx.require(REQUIRED);
-    cx.rule = "0..=6 textures of mixed supported formats (RGBA8, RGBA5551, RGB565, RGBA4, LA8, L8, A8, ETC1, ETC1A4; CI8+RGB5A3 palette for TPL), sizes {8,16,32}^2 (TPL: any 1..=40), ASCII and non-ASCII names, packed by the reference builders into CTPK, BCH (both header variants), CGFX and TPL with default and random conforming placement of tables, names and payloads (filler between sections). Oracle: count, order, names, dimensions, and pixel data equal to what the library returns for the same payload packed alone; wrong magic must be rejected (BCH, CGFX, TPL); strict prefixes: never a panic, and Err whenever the cut lies before the end of any payload (directed cases enumerate every prefix, random cases 200 cuts + every payload boundary +-1 + the first 0x60 bytes). non-trivial = container with >=2 textures of different formats and shuffled sections; distinct by file hash".into();
+    cx.rule = "0..=6 textures of mixed supported formats (RGBA8, RGBA5551, RGB565, RGBA4, LA8, L8, A8, ETC1, ETC1A4; CI8+RGB5A3 palette for TPL), sizes {8,16,32}^2 (TPL: any 1..=40) plus directed large dimensions (1024x8, 8x1024, 512x16, 8x2048, 256x256), ASCII and non-ASCII names, packed by the reference builders into CTPK, BCH (both header variants), CGFX and TPL with default and random conforming placement of tables, names and payloads (filler between sections). Oracle: count, order, names, dimensions, and pixel data equal to what the library returns for the same payload packed alone; wrong magic must be rejected (BCH, CGFX, TPL); strict prefixes: never a panic, and Err whenever the cut lies before the end of any payload (directed cases enumerate every prefix, random cases 200 cuts + every payload boundary +-1 + the first 0x60 bytes). non-trivial = container with >=2 textures of different formats and shuffled sections; distinct by file hash".into();
     let miri = cfg!(miri);
     for k in KINDS {
         cx.case("directed", |c| {
@@ -226,6 +226,42 @@ pub fn run(cx: &mut Ctx) {
             let texs: Vec<Tex> = (0..if miri { 1 } else { 3 }).map(|_| gen_tex(&mut rng, k, true)).collect();
             check(c, k, &texs, false, true);
             check(c, k, &texs, true, true);
+        });
+    }
+    if !miri {
+        // dimensions well beyond the usual ones (the size fields are 16 / 32 bits wide)
+        for k in [Kind::Ctpk, Kind::Bch, Kind::BchNew, Kind::Cgfx] {
+            cx.case("large_dimensions", |c| {
+                c.sit("large_dimensions");
+                let mut rng = Rng::new(k as u64 + 900);
+                let mut texs = Vec::new();
+                for (w, h, f) in [(1024usize, 8usize, Fmt::L8), (8, 1024, Fmt::A8), (512, 16, Fmt::Rgb565), (8, 2048, Fmt::L8), (256, 256, Fmt::Etc1)] {
+                    let payload = if f == Fmt::Etc1 {
+                        let mut p = Vec::new();
+                        for _ in 0..w * h / 16 {
+                            p.extend(random_defined_block(&mut rng));
+                        }
+                        p
+                    } else {
+                        rng.bytes(f.payload_len(w, h))
+                    };
+                    texs.push(Tex { name: format!("big{}x{}", w, h), width: w, height: h, format: f.code(), payload, palette: vec![] });
+                }
+                check(c, k, &texs, false, false);
+                check(c, k, &texs[..2], true, false);
+            });
+        }
+        cx.case("large_dimensions", |c| {
+            let mut rng = Rng::new(950);
+            let mut texs = Vec::new();
+            for (w, h) in [(1024usize, 4usize), (8, 1024), (1000, 3)] {
+                let aw = (w + 7) / 8 * 8;
+                let ah = (h + 3) / 4 * 4;
+                let palette: Vec<u16> = (0..200).map(|_| rng.u32() as u16).collect();
+                let payload: Vec<u8> = (0..aw * ah).map(|_| rng.below(200) as u8).collect();
+                texs.push(Tex { name: String::new(), width: w, height: h, format: 0, payload, palette });
+            }
+            check(c, Kind::Tpl, &texs, false, false);
         });
     }
     let n = cx.a.n(20_000, 200_000);
